@@ -160,6 +160,8 @@ type storeRun struct {
 	pruned      int64 // highest version of a dead-node record that a prune was entitled to drop (records < v); roots saved at versions below it are no longer retained. Stronger than the property's "version >= v": a root at version r only depends on records of versions > r staying unpruned
 	roundOps    []string
 	noSaveCrash bool // op `light 2`
+	outside     bool // op `outside-quantifier`
+	observed    int
 	light       bool // op `light`: no per-operation frame/view re-reads after ins/del (large histories)
 	sub         bool // replaying a round on a cloned store: no output checks, no nested enumeration
 	fails       []string
@@ -194,7 +196,17 @@ func mapsEqual(a, b map[string][]byte) bool {
 	return true
 }
 
+// fail records an oracle failure. Failures tagged with another property than the suite's are left to that property's
+// suite (c03/c04/c05 run the same histories); "*" = an operation of the implementation failed where it must succeed
+// (insert, delete of a present path, merge, MergeDB, save, prune): kept in every suite, also in c05big which has no model.
 func (s *storeRun) fail(prop, f string, a ...interface{}) {
+	if s.outside {
+		// op `outside-quantifier`: a documented history outside the property's assumptions; what the oracles see is an
+		// observation, and the case must keep showing it
+		s.observed++
+		s.tags["observation:outside-quantifier:"+prop] = true
+		return
+	}
 	if s.prop != "" && prop != s.prop && prop != "*" {
 		return
 	}
@@ -518,6 +530,18 @@ func decodeDead(b []byte) (map[string]bool, error) {
 	return out, nil
 }
 
+// deadRecs: the dead-node records of the store; a record the code under test wrote that does not decode is a failure
+// (the dead ∩ live checks would otherwise pass vacuously on a sentinel set)
+func (s *storeRun) deadRecs(dir string) map[int64]map[string]bool {
+	recs := deadRecords(dir)
+	for ver, m := range recs {
+		if m["undecodable"] {
+			s.fail("C05", "the dead-node record of version %d written by RecordDeadNodes does not decode as msgp {Nodes: {hexkey: bool}}", ver)
+		}
+	}
+	return recs
+}
+
 func deadRecords(dir string) map[int64]map[string]bool {
 	out := map[int64]map[string]bool{}
 	for k, v := range grocksdb.FakeSnapshot(dir, "dead_nodes") {
@@ -738,7 +762,7 @@ func (s *storeRun) checkDiscipline(t *trieH) {
 }
 
 func (s *storeRun) recordSaved(t *trieH) {
-	recs := deadRecords(s.dir)
+	recs := s.deadRecs(s.dir)
 	dead := recs[s.version]
 	if dead == nil {
 		dead = map[string]bool{}
@@ -781,6 +805,10 @@ func (s *storeRun) exec(op string) string {
 		return t
 	}
 	switch f[0] {
+	case "outside-quantifier":
+		s.outside = true
+		return "ok"
+
 	case "light":
 		// light: no per-operation frame/view re-reads after ins/del/bulk (large histories);
 		// light 2: additionally no crash enumeration at saves (large prune histories; saves are enumerated elsewhere)
@@ -905,7 +933,7 @@ func (s *storeRun) exec(op string) string {
 			return "ok " + rootStr(t.mpt.GetRoot())
 		})
 		if !strings.HasPrefix(out, "ok") {
-			s.fail("C04", "MergeDB from a donor store failed: %s", out)
+			s.fail("*", "MergeDB from a donor store failed: %s", out)
 		}
 		t.content = content
 		t.muts++
@@ -984,14 +1012,14 @@ func (s *storeRun) exec(op string) string {
 		switch {
 		case f[0] == "ins":
 			if !strings.HasPrefix(out, "ok") {
-				s.fail("C03", "insert into trie %d failed: %s", t.id, out)
+				s.fail("*", "insert into trie %d failed: %s", t.id, out)
 			} else {
 				t.content[path] = val
 				t.muts++
 			}
 		case present:
 			if !strings.HasPrefix(out, "ok") {
-				s.fail("C03", "delete of a path present in the view of trie %d failed: %s", t.id, out)
+				s.fail("*", "delete of a path present in the view of trie %d failed: %s", t.id, out)
 			} else {
 				delete(t.content, path)
 				t.muts++
@@ -1040,7 +1068,7 @@ func (s *storeRun) exec(op string) string {
 			return "ok " + rootStr(t.mpt.GetRoot())
 		})
 		if !strings.HasPrefix(out, "ok") {
-			s.fail("C03", "bulk insert into trie %d failed: %s", t.id, out)
+			s.fail("*", "bulk insert into trie %d failed: %s", t.id, out)
 		}
 		t.muts++
 		s.tags["bulk"] = true
@@ -1163,7 +1191,7 @@ func (s *storeRun) exec(op string) string {
 				s.frame(map[int]bool{}, -1)
 			}
 		default:
-			s.fail("C03", "merge of trie %d returned %q", c.id, out)
+			s.fail("*", "merge of trie %d returned %q", c.id, out)
 		}
 		return out
 
@@ -1238,7 +1266,7 @@ func (s *storeRun) exec(op string) string {
 				s.frame(map[int]bool{}, -1)
 			}
 		default:
-			s.fail("C03", "merge of the change set of trie %d returned %q", c.id, out)
+			s.fail("*", "merge of the change set of trie %d returned %q", c.id, out)
 		}
 		return out
 
@@ -1372,7 +1400,7 @@ func (s *storeRun) exec(op string) string {
 		grocksdb.FakeLog(s.dir, true)
 		if err := doSave(t, s.pndb, s.version); err != nil {
 			grocksdb.FakeLog(s.dir, false)
-			s.fail("C04", "save failed: %v", err)
+			s.fail("*", "save failed: %v", err)
 			return errKind(err)
 		}
 		saveSizes := writeSizes(grocksdb.FakeLog(s.dir, false))
@@ -1453,7 +1481,7 @@ func (s *storeRun) exec(op string) string {
 	case "prune", "crash-prune":
 		v := int64(atoi(f[1]))
 		before := grocksdb.FakeSnapshot(s.dir, "default")
-		recsBefore := deadRecords(s.dir)
+		recsBefore := s.deadRecs(s.dir)
 		allowed := map[string]bool{}
 		for ver, m := range recsBefore {
 			if ver < v {
@@ -1494,7 +1522,7 @@ func (s *storeRun) exec(op string) string {
 		w0 := grocksdb.FakeWrites(s.dir)
 		grocksdb.FakeLog(s.dir, true)
 		if err := s.pndb.PruneBelowVersion(context.Background(), v); err != nil {
-			s.fail("C05", "prune failed: %v", err)
+			s.fail("*", "prune failed: %v", err)
 		}
 		pruneSizes := writeSizes(grocksdb.FakeLog(s.dir, false))
 		writes := grocksdb.FakeWrites(s.dir) - w0
@@ -1592,6 +1620,10 @@ func runStoreCase(prop string, ops []string) CaseResult {
 		}()
 	}
 	grocksdb.FakeReset(s.dir)
+	if s.outside && s.observed == 0 {
+		s.outside = false
+		s.fail("*", "a history marked outside-quantifier no longer shows any oracle difference: the documented boundary moved (update the notes and the corpus case)")
+	}
 	res.Fails = s.fails
 	for t := range s.tags {
 		res.Tags = append(res.Tags, t)
